@@ -412,7 +412,7 @@ impl<T: Send> AsyncSender<T> {
   /// Sends a value asynchronously. The returned future resolves once the value
   /// is in the buffer, or with `Err` if the channel closes. Cancel-safe.
   pub fn send(&self, item: T) -> SendFuture<'_, T> {
-    imp::SendFuture::new(&self.shared, item)
+    imp::SendFuture::new(&self.shared, item, self.closed.load(Ordering::Relaxed))
   }
 
   pub fn try_send(&self, item: T) -> Result<(), TrySendError<T>> {
@@ -472,13 +472,13 @@ impl<T: Send> AsyncSender<T> {
   /// Sends a batch asynchronously. Resolves with `Ok(n)` once every item is
   /// sent, or [`SendBatchError`] if the channel closes mid-batch.
   pub fn send_batch(&self, items: Vec<T>) -> SendBatchFuture<'_, T> {
-    imp::SendBatchFuture::new(&self.shared, items)
+    imp::SendBatchFuture::new(&self.shared, items, self.closed.load(Ordering::Relaxed))
   }
 
   /// Sends a batch asynchronously in place. Cancel-safe: on drop or closure the
   /// unsent remainder stays in `items`.
   pub fn send_batch_mut<'a>(&'a self, items: &'a mut Vec<T>) -> SendBatchMutFuture<'a, T> {
-    imp::SendBatchMutFuture::new(&self.shared, items)
+    imp::SendBatchMutFuture::new(&self.shared, items, self.closed.load(Ordering::Relaxed))
   }
 
   pub fn close(&self) -> Result<(), CloseError> {
@@ -544,7 +544,7 @@ impl<T: Send> AsyncReceiver<T> {
   /// Receives a value asynchronously. Cancel-safe: dropping the future before it
   /// resolves only unlinks the parked waiter.
   pub fn recv(&self) -> RecvFuture<'_, T> {
-    imp::RecvFuture::new(&self.shared)
+    imp::RecvFuture::new(&self.shared, self.closed.load(Ordering::Relaxed))
   }
 
   pub fn try_recv(&self) -> Result<T, TryRecvError> {
@@ -575,12 +575,12 @@ impl<T: Send> AsyncReceiver<T> {
   /// Receives up to `max` items asynchronously (FIFO) once anything is
   /// available.
   pub fn recv_batch(&self, max: usize) -> RecvBatchFuture<'_, T> {
-    imp::RecvBatchFuture::new(&self.shared, max)
+    imp::RecvBatchFuture::new(&self.shared, max, self.closed.load(Ordering::Relaxed))
   }
 
   /// Receives up to `max` items asynchronously, appending to `out`. Cancel-safe.
   pub fn recv_batch_mut<'a>(&'a self, out: &'a mut Vec<T>, max: usize) -> RecvBatchMutFuture<'a, T> {
-    imp::RecvBatchMutFuture::new(&self.shared, out, max)
+    imp::RecvBatchMutFuture::new(&self.shared, out, max, self.closed.load(Ordering::Relaxed))
   }
 
   pub fn close(&self) -> Result<(), CloseError> {
